@@ -76,6 +76,30 @@ def decorate(rng, a):
     return a
 
 
+def rebuild_leaves_identical(e):
+    """C06 across processes: building a leaf again in THIS process must give the object the unpickler produced"""
+    import claripy
+    for l in e.leaf_asts():
+        try:
+            if l.op == "BVS":
+                n = claripy.BVS(l.args[0], l.args[1], explicit_name=True)
+            elif l.op == "BoolS":
+                n = claripy.BoolS(l.args[0], explicit_name=True)
+            elif l.op == "FPS":
+                n = claripy.FPS(l.args[0], l.args[1], explicit_name=True)
+            elif l.op == "BVV":
+                n = claripy.BVV(l.args[0], l.args[1])
+            else:
+                continue
+            if l.annotations:
+                n = n.annotate(*l.annotations)
+            if n is not l:
+                return False
+        except Exception:  # noqa: BLE001
+            return False
+    return True
+
+
 def phase_b(blobfile, outfile):
     with open(blobfile, "rb") as f:
         blobs = pickle.load(f)
@@ -84,7 +108,7 @@ def phase_b(blobfile, outfile):
         try:
             e = pickle.loads(b)
             res.append({"out": "ok", "r": TM.ser(e, ann=True), "probes": probes(e), "len": e.length or 0, "depth": e.depth,
-                        "vars": sorted(e.variables)})
+                        "vars": sorted(e.variables), "rebuilt": rebuild_leaves_identical(e)})
         except Exception as ex:  # noqa: BLE001
             res.append({"out": "PyError:" + type(ex).__name__})
     with open(outfile, "w") as f:
@@ -107,13 +131,18 @@ def main():
         except Exception:  # noqa: BLE001
             continue
         exprs.append(e)
+    import claripy
+    for fs in (claripy.FSORT_DOUBLE, claripy.FSORT_FLOAT):
+        f, g = claripy.FPS("pf", fs, explicit_name=True), claripy.FPS("pg", fs, explicit_name=True)
+        for rm in (claripy.fp.RM.RM_NearestTiesEven, claripy.fp.RM.RM_TowardsZero, claripy.fp.RM.RM_TowardsPositiveInf):
+            exprs += [claripy.fpToIEEEBV(claripy.fpAdd(rm, f, g)), claripy.fpLT(claripy.fpMul(rm, f, g), f)]
     blobs = [pickle.dumps(e, -1) for e in exprs]
     for e, b in zip(exprs, blobs):
         orig.append({"w": TM.ser(e, ann=True), "probes": probes(e), "same": pickle.loads(b) is e})
     # (1) in-process, original alive
     for o, e in zip(orig, exprs):
         ev = {"k": "xp", "mode": "alive", "inproc": True, "same": o["same"], "out": "ok", "w": o["w"], "r": o["w"],
-              "probes": [], "len": e.length or 0, "depth": e.depth, "vars": sorted(e.variables)}
+              "probes": [], "len": e.length or 0, "depth": e.depth, "vars": sorted(e.variables), "rebuilt": True}
         out.write(ev, nontrivial_key=[o["w"]], outcome="alive", sample={"expr": o["w"]})
     # (2) in-process after the originals (and everything built from them) were collected
     del exprs, e
@@ -123,11 +152,12 @@ def main():
             e2 = pickle.loads(b)
             ev = {"k": "xp", "mode": "collected", "inproc": False, "same": False, "out": "ok", "w": o["w"],
                   "r": TM.ser(e2, ann=True), "probes": [[x, y] for x, y in zip(o["probes"], probes(e2))],
-                  "len": e2.length or 0, "depth": e2.depth, "vars": sorted(e2.variables)}
+                  "len": e2.length or 0, "depth": e2.depth, "vars": sorted(e2.variables),
+                  "rebuilt": rebuild_leaves_identical(e2)}
             del e2
         except Exception as ex:  # noqa: BLE001
             ev = {"k": "xp", "mode": "collected", "inproc": False, "same": False, "out": "PyError:" + type(ex).__name__,
-                  "w": o["w"], "r": o["w"], "probes": [], "len": 0, "depth": 0, "vars": []}
+                  "w": o["w"], "r": o["w"], "probes": [], "len": 0, "depth": 0, "vars": [], "rebuilt": True}
         out.write(ev, outcome="collected")
     # (3) fresh interpreters with different hash seeds
     bf = sys.argv[2] + ".blobs.pkl"
@@ -145,11 +175,11 @@ def main():
         for o, r in zip(orig, res):
             if r["out"] != "ok":
                 ev = {"k": "xp", "mode": "fresh-" + hs, "inproc": False, "same": False, "out": r["out"], "w": o["w"],
-                      "r": o["w"], "probes": [], "len": 0, "depth": 0, "vars": []}
+                      "r": o["w"], "probes": [], "len": 0, "depth": 0, "vars": [], "rebuilt": True}
             else:
                 ev = {"k": "xp", "mode": "fresh-" + hs, "inproc": False, "same": False, "out": "ok", "w": o["w"],
                       "r": r["r"], "probes": [[x, y] for x, y in zip(o["probes"], r["probes"])], "len": r["len"],
-                      "depth": r["depth"], "vars": r["vars"]}
+                      "depth": r["depth"], "vars": r["vars"], "rebuilt": r["rebuilt"]}
             out.write(ev, outcome="fresh")
     os.unlink(bf)
     out.close()
